@@ -622,14 +622,12 @@ func cmdServe(args []string) {
 			}
 			live = m
 		}
-		if *prop == "C11" {
-			// life-cycle steps that must leave the abstract state - and hence the dispatch rule - as it is:
-			// a rejected Reconfigure, the documented no-op Reconfigure(Config()), a debug toggle
-			bad := cors.Config{Origins: []string{"https://other.example"}, MaxAgeInSeconds: -7}
-			m.Reconfigure(&bad)
+		// operations that must leave the abstract state - and hence every per-request property - as it is: in-place writes to a
+		// Config() result, a rejected Reconfigure, the documented no-op Reconfigure(Config()), a debug toggle
+		noise(m)
+		if !s.Pass {
 			bad2 := cors.Config{Origins: []string{"https://other.example"}, ResponseHeaders: []string{"Set-Cookie"}}
 			m.Reconfigure(&bad2)
-			m.Reconfigure(m.Config())
 			m.SetDebug(true)
 			m.SetDebug(false)
 		}
@@ -687,6 +685,7 @@ func cmdServe(args []string) {
 		}
 		for _, dbg := range []bool{false, true} {
 			m.SetDebug(dbg)
+			noise(m)
 			for vi, vr := range variants {
 				t.emit(map[string]any{"ev": "Block", "dbg": dbg, "variant": vi})
 				for _, rs := range reqs {
